@@ -107,7 +107,8 @@ func (c *Ctx) ConcPart() {
 	if c.Thorough() {
 		bound = 2
 	}
-	left := int(time.Until(c.Deadline).Seconds()) - 5
+	// the companion gets at most 35% of what is left of the check's budget (it is called first)
+	left := int(time.Until(c.Deadline).Seconds()*0.35) - 2
 	if left < 5 {
 		c.Cap("time budget: schedule part not run")
 		return
@@ -124,11 +125,11 @@ func (c *Ctx) ConcPart() {
 		c.Count("conc_schedules_explored", s.Executions)
 		if c.Shard == 0 {
 			c.Note("conc_"+s.Name, fmt.Sprintf("shard 0 of %d: schedules=%d scheduling_points=%d preemption_bound=%d", c.NShards, s.Executions, s.MaxPoints, bound))
-			if s.MaxPoints < 4 && s.Unstable == "" {
+			if s.Executions > 0 && s.MaxPoints < 4 && s.Unstable == "" {
 				c.Infra("schedule part of " + s.Name + " is vacuous: fewer than 4 scheduling points (instrumentation missing?)")
 			}
 		}
-		if s.Truncated {
+		if s.Truncated || (s.Executions == 0 && s.Unstable == "") {
 			c.Cap("time budget during schedule exploration of " + s.Name)
 		}
 		if s.Divergence != "" {
